@@ -69,10 +69,39 @@ func (s *Server) ansFromDNSRewriteText(
 	}
 
 	if rr == dns.TypeTXT {
-		return s.genAnswerTXT(req, []string{str}), nil
+		txt := s.genAnswerTXT(req, txtStrings(str))
+
+		// A record that can't be packed makes the whole response impossible
+		// to send, so that the query would get no reply at all.  Leave room
+		// for the header, the question, and the additional section.
+		_, err = dns.PackRR(txt, make([]byte, dns.MaxMsgSize-txtRespReserve), 0, nil, false)
+		if err != nil {
+			return nil, fmt.Errorf("txt value of %d bytes: %w", len(str), err)
+		}
+
+		return txt, nil
 	}
 
 	return s.genAnswerPTR(req, str), nil
+}
+
+// maxTXTStringLen is the maximum length of a single character string of a TXT
+// record.
+const maxTXTStringLen = 255
+
+// txtRespReserve is the number of bytes of a response that a TXT record made
+// from a rewrite rule must leave to the rest of the message.
+const txtRespReserve = 512
+
+// txtStrings splits the value of a TXT record into character strings no longer
+// than [maxTXTStringLen], as a single longer one can't be put into a record.
+func txtStrings(val string) (strs []string) {
+	for len(val) > maxTXTStringLen {
+		strs = append(strs, val[:maxTXTStringLen])
+		val = val[maxTXTStringLen:]
+	}
+
+	return append(strs, val)
 }
 
 // ansFromDNSRewriteMX creates a new answer resource record from the MX
